@@ -67,6 +67,14 @@ class RefS(Sort):
         self.key = "Ref[%s]" % cls
 
 
+class ArrS(Sort):
+    """total function (ghost only): an SMT array"""
+
+    def __init__(self, k, v):
+        self.k, self.v = k, v
+        self.key = "Arr[%s,%s]" % (k.key, v.key)
+
+
 class OptS(Sort):
     def __init__(self, inner):
         self.inner = inner
@@ -122,6 +130,8 @@ def z(sort):
         d = z3.Datatype(_san(k))
         d.declare("mk", *[("f%d" % i, z(e)) for i, e in enumerate(sort.elems)])
         r = d.create()
+    elif isinstance(sort, ArrS):
+        r = z3.ArraySort(z(sort.k), z(sort.v))
     elif isinstance(sort, OptS):
         d = z3.Datatype(_san(k))
         d.declare("none")
